@@ -145,6 +145,13 @@ Proof. exact ws_deregistered. Qed.
 Theorem C08_ws_model_meets_spec : forall (p : proto) ls, spec_verdict p (tr p ls) = None.
 Proof. exact ws_model_meets_spec. Qed.
 
+(** frames that are on their way while the server is closing are still dispatched (the model's runs
+    contain frames after every closing frame): the oracle the check uses for that part of an observed
+    conversation — same rules, answers may be cut short from trace position k on — accepts every model
+    trace as well *)
+Theorem C08_ws_model_meets_spec_closing : forall k (p : proto) ls, spec_verdict_from k p (tr p ls) = None.
+Proof. exact ws_model_meets_spec_closing. Qed.
+
 (** the repaired defects, kept as witnesses: the model of the code before the repair violates the Spec *)
 Theorem C08_ws_ping_refuted_before_fix :
   exists ls, spec_verdict PTws (trace true false false PTws ls) = Some "ping-pong"%string.
@@ -194,6 +201,18 @@ Theorem C08_ws_quiescent_refuted_before_fix_goroutine :
   exists c, arun 1 false init_cfg stuck_goroutine_run = Some c /\ ending c = true /\
             (forall l, internal l = true -> astep 1 false c l = None) /\ all_gone c = false.
 Proof. exact quiescent_refuted_before_fix_goroutine. Qed.
+
+(** HandleClose happens after the read loop's last handler return.  A handler call in flight is the read
+    loop in [RBusy prog]; the application's Close(), a drop, a failing write, the exit of the write loop
+    can all happen while it lasts.  In every reachable configuration in which HandleClose has run the
+    read loop has ended, stays ended, no subscription can be registered any more (the list of goroutines
+    keeps its length under every step) and every stream ever registered has been taken out of the map
+    and stopped exactly once. *)
+Theorem C08_ws_close_after_last_handler : forall cap c,
+  reachable cap true c -> finished c = true ->
+  rd c = RDone /\ Forall (fun g => g_inmap g = false /\ g_stops g = 1) (gs c) /\
+  (forall l c', astep cap true c l = Some c' -> rd c' = RDone /\ List.length (gs c') = List.length (gs c)).
+Proof. exact ws_close_after_last_handler. Qed.
 
 (** ** J. stage 3: the two models joined (Ws/WsSys.v) *)
 (** One transition system: the actors of stage 2 carrying the dispatcher and the table of sources of
@@ -261,6 +280,8 @@ Print Assumptions C08_ws_stop_exactly_once.
 Print Assumptions C08_ws_stop_only_started.
 Print Assumptions C08_ws_deregistered.
 Print Assumptions C08_ws_model_meets_spec.
+Print Assumptions C08_ws_model_meets_spec_closing.
+Print Assumptions C08_ws_close_after_last_handler.
 Print Assumptions C08_ws_ping_refuted_before_fix.
 Print Assumptions C08_ws_id_reuse_refuted_before_fix.
 Print Assumptions C08_ws_keepalive_refuted_before_fix.
